@@ -254,53 +254,90 @@ def Net.Consistent (s : Net) : Prop :=
 
 /-- the constant part of the object -/
 def Net.SameData (s t : Net) : Prop :=
-  t.N = s.N ∧ t.directed = s.directed ∧ t.S = s.S ∧ t.damp = s.damp
+  t.N = s.N ∧ t.directed = s.directed ∧ t.damp = s.damp
+
+/-- the stored similarity after a history: replaced (by its absolute value) at each regeneration -/
+def curSim (S : Sim) : List Op → Sim
+  | [] => S
+  | .resim S1 :: os => curSim (absSim S1) os
+  | _ :: os => curSim S os
 
 theorem setThreshold_consistent (s : Net) (θ : Rat) :
     (s.setThreshold θ).Consistent ∧ s.SameData (s.setThreshold θ) ∧
+      (s.setThreshold θ).S = s.S ∧
       (s.setThreshold θ).θ = θ ∧ (s.setThreshold θ).nonLocal = s.nonLocal := by
   simp [Net.setThreshold, Net.Consistent, Net.SameData]
 
+/-- **`_regenerate_network`**: after a subclass re-derived its similarity the object is consistent
+with the *new* similarity, keeps threshold, `non_local`, grid and `directed` -/
+theorem regenerate_consistent (s : Net) (S1 : Sim) :
+    (s.regenerate S1).Consistent ∧ s.SameData (s.regenerate S1) ∧
+      (s.regenerate S1).S = absSim S1 ∧
+      (s.regenerate S1).θ = s.θ ∧ (s.regenerate S1).nonLocal = s.nonLocal := by
+  simp [Net.regenerate, Net.setThreshold, Net.Consistent, Net.SameData]
+
 theorem step_consistent (s s' : Net) (o : Op) (hc : s.Consistent) (h : s.step o = some s') :
-    s'.Consistent ∧ s.SameData s' := by
+    s'.Consistent ∧ s.SameData s' ∧ s'.S = curSim s.S [o] := by
   cases o with
   | thr θ =>
     simp only [Net.step, Option.some.injEq] at h
     subst h
-    exact ⟨(setThreshold_consistent s θ).1, (setThreshold_consistent s θ).2.1⟩
+    exact ⟨(setThreshold_consistent s θ).1, (setThreshold_consistent s θ).2.1,
+      (setThreshold_consistent s θ).2.2.1⟩
   | dens k =>
     simp only [Net.step, Net.setLinkDensity, Option.map_eq_some_iff] at h
     obtain ⟨θ, _, rfl⟩ := h
-    exact ⟨(setThreshold_consistent s θ).1, (setThreshold_consistent s θ).2.1⟩
+    exact ⟨(setThreshold_consistent s θ).1, (setThreshold_consistent s θ).2.1,
+      (setThreshold_consistent s θ).2.2.1⟩
   | nl b =>
     simp only [Net.step, Net.setNonLocal, Option.some.injEq] at h
     by_cases hb : (s.nonLocal != b) = true
     · rw [if_pos hb] at h
       subst h
       have := setThreshold_consistent { s with nonLocal := b } s.θ
-      exact ⟨this.1, this.2.1⟩
+      exact ⟨this.1, this.2.1, this.2.2.1⟩
     · rw [if_neg hb] at h
       subst h
-      exact ⟨hc, rfl, rfl, rfl, rfl⟩
+      exact ⟨hc, ⟨rfl, rfl, rfl⟩, rfl⟩
+  | resim S1 =>
+    simp only [Net.step, Option.some.injEq] at h
+    subst h
+    exact ⟨(regenerate_consistent s S1).1, (regenerate_consistent s S1).2.1,
+      (regenerate_consistent s S1).2.2.1⟩
+
+theorem curSim_cons (S : Sim) (o : Op) (os : List Op) :
+    curSim S (o :: os) = curSim (curSim S [o]) os := by
+  cases o <;> simp [curSim]
 
 /-- **consistency after every history** of `set_threshold / set_link_density / set_non_local`
-calls (any arguments, any raw quantile indices) that does not raise -/
+calls and similarity re-derivations (`set_winter_only`, `set_max_delay`, … →
+`_regenerate_network`), any arguments, any raw quantile indices, that does not raise: adjacency,
+link count and density are those of the reported threshold / `non_local` and of the *current*
+similarity -/
 theorem consistent_after_history (ops : List Op) (s s' : Net) (hc : s.Consistent)
-    (h : s.run ops = some s') : s'.Consistent ∧ s.SameData s' := by
+    (h : s.run ops = some s') : s'.Consistent ∧ s.SameData s' ∧ s'.S = curSim s.S ops := by
   induction ops generalizing s with
   | nil =>
     simp only [Net.run, Option.some.injEq] at h
     subst h
-    exact ⟨hc, rfl, rfl, rfl, rfl⟩
+    exact ⟨hc, ⟨rfl, rfl, rfl⟩, rfl⟩
   | cons o os ih =>
     simp only [Net.run, Option.bind_eq_some_iff] at h
     obtain ⟨s1, h1, h2⟩ := h
     have c1 := step_consistent s s1 o hc h1
     have c2 := ih s1 c1.1 h2
-    refine ⟨c2.1, ?_⟩
-    obtain ⟨a1, a2, a3, a4⟩ := c1.2
-    obtain ⟨b1, b2, b3, b4⟩ := c2.2
-    exact ⟨b1.trans a1, b2.trans a2, b3.trans a3, b4.trans a4⟩
+    refine ⟨c2.1, ?_, ?_⟩
+    · obtain ⟨a1, a2, a3⟩ := c1.2.1
+      obtain ⟨b1, b2, b3⟩ := c2.2.1
+      exact ⟨b1.trans a1, b2.trans a2, b3.trans a3⟩
+    · rw [c2.2.2, c1.2.2, ← curSim_cons]
+
+/-- the stored similarity is the absolute value of the raw similarity last handed over -/
+theorem curSim_absSim (S0 : Sim) (ops : List Op) :
+    curSim (absSim S0) ops = absSim (lastSim S0 ops) := by
+  induction ops generalizing S0 with
+  | nil => rfl
+  | cons o os ih => cases o <;> simp [curSim, lastSim, ih]
 
 /-- a consistent state *is* the freshly constructed object with the reported settings -/
 theorem consistent_eq_fresh (N : Nat) (directed : Bool) (S0 damp : Sim) (s : Net)
@@ -313,30 +350,50 @@ theorem consistent_eq_fresh (N : Nat) (directed : Bool) (S0 damp : Sim) (s : Net
   subst hN hdir hS hd
   simp [h1, h2, h3]
 
-/-- **fresh twin**: the object after any setter history equals a fresh
-`ClimateNetwork(grid, S₀, threshold=threshold(), non_local=non_local(), directed=…)` -/
+/-- **fresh twin**: the object after any history of setters and similarity re-derivations equals
+a fresh `ClimateNetwork(grid, S, threshold=threshold(), non_local=non_local(), directed=…)`
+built from the similarity `S` it was last given (`S₀` when none was re-derived) -/
 theorem history_eq_fresh (N : Nat) (directed : Bool) (S0 damp : Sim) (nl : Bool) (θ : Rat)
     (ops : List Op) (s' : Net)
     (h : (mkThreshold N directed S0 damp nl θ).run ops = some s') :
-    s' = mkThreshold N directed S0 damp s'.nonLocal s'.θ := by
+    s' = mkThreshold N directed (lastSim S0 ops) damp s'.nonLocal s'.θ := by
   have hc : (mkThreshold N directed S0 damp nl θ).Consistent :=
     (setThreshold_consistent _ θ).1
-  obtain ⟨c, d1, d2, d3, d4⟩ := consistent_after_history ops _ s' hc h
-  exact consistent_eq_fresh N directed S0 damp s' c d1 d2 d3 d4
+  obtain ⟨c, ⟨d1, d2, d3⟩, d4⟩ := consistent_after_history ops _ s' hc h
+  refine consistent_eq_fresh N directed (lastSim S0 ops) damp s' c d1 d2 ?_ d3
+  rw [d4, ← curSim_absSim]
+  rfl
 
 /-- the same when the object was built from a link density -/
 theorem history_eq_fresh_density (N : Nat) (directed : Bool) (S0 damp : Sim) (nl : Bool)
     (k : Nat) (ops : List Op) (s0 s' : Net)
     (h0 : mkDensity N directed S0 damp nl k = some s0) (h : s0.run ops = some s') :
-    s' = mkThreshold N directed S0 damp s'.nonLocal s'.θ := by
+    s' = mkThreshold N directed (lastSim S0 ops) damp s'.nonLocal s'.θ := by
   simp only [mkDensity, Net.setLinkDensity, Option.map_eq_some_iff] at h0
   obtain ⟨θ, _, rfl⟩ := h0
   exact history_eq_fresh N directed S0 damp nl θ ops s' h
+
+/-- without re-derivations the similarity is the constructor's -/
+theorem lastSim_of_no_resim (S0 : Sim) (ops : List Op)
+    (h : ∀ o ∈ ops, ∀ S1, o ≠ Op.resim S1) : lastSim S0 ops = S0 := by
+  induction ops with
+  | nil => rfl
+  | cons o os ih =>
+    cases o with
+    | resim S1 => exact absurd rfl (h _ (by simp) S1)
+    | _ => simpa [lastSim] using ih (fun o ho => h o (by simp [ho]))
 
 example : ((mkThreshold 2 false (fun i j => if i = j then 1 else 1/2) (fun _ _ => 3/4) false
     (1/4)).run [Op.nl true, Op.dens 0, Op.thr (1/8), Op.nl true]).map
       (fun s => (s.nonLocal, s.θ, s.A, s.nLinks, s.density))
     = some (true, 1/8, [false, true, true, false], 1, some 1) := by decide +kernel
+
+/-- a regeneration in the middle of a history: the links follow the new similarity, at the kept
+threshold and `non_local` setting -/
+example : ((mkThreshold 2 true (fun i j => if i = j then 1 else 1/2) (fun _ _ => 1/2) true
+    (1/8)).run [Op.resim (fun i j => if i = j then 1 else if i < j then -1/8 else 3/4),
+      Op.nl false]).map (fun s => (s.nonLocal, s.θ, s.A, s.nLinks, s.density))
+    = some (false, 1/8, [false, false, true, false], 1, some (1/2)) := by decide +kernel
 
 /-! ## 6. the expressions regenerated from the source -/
 
